@@ -1,13 +1,18 @@
-"""Thorough tier of C16: the `sourmash compare` command line.
+"""CLI tier of C16: the `sourmash compare` command line and the reload of what it saves (`sourmash plot`).
 
-usage: compare_cli.py <tmpdir> <seed> <n_runs>      (PYTHONPATH = package built from /repo)
+usage: compare_cli.py <tmpdir> <seed> <n_runs> [labels]      (PYTHONPATH = package built from /repo)
+       `labels`: only small runs whose signature names have leading / trailing whitespace, tabs or a newline
 
 For every run: write signature files, run `python -m sourmash compare ... -o M --csv C --labels-to L [-p k]`
 on the files in a random order, reload the .npy matrix, the .labels.txt, the CSV and the labels CSV, and
 compare every cell EXACTLY with the pairwise value computed here through the SourmashSignature API on the
 signatures as the command prepares them (all downsampled to the largest scaled).  Then run the command
 again on a permutation of the files and check that the matrix and the labels are permuted accordingly.
-Prints a JSON report.
+Part of the files is passed through `--from-file`.  The saved matrix + labels are then RELOADED the way users do it:
+`sourmash plot M --labels --csv X` (reads M.labels.txt) and `sourmash plot M --labels-from L --csv X` (reads the
+--labels-to CSV); the re-ordered matrix and labels plot writes must be the in-process matrix / labels, cell by cell.
+Every measure switch (--containment, --max-containment, --avg-containment, each with --ani, --ignore-abundance,
+--distance-matrix, -p N which goes through np_utils.to_memmap) is drawn.  Prints a JSON report.
 """
 import csv
 import json
@@ -23,7 +28,7 @@ from sourmash import MinHash, SourmashSignature, save_signatures, load_file_as_s
 U64 = 2 ** 64
 
 
-def make_sigs(rng, n, ksize):
+def make_sigs(rng, n, ksize, hard=0.0):
     scaleds = rng.choice([[1], [2], [10], [1, 2, 4], [10, 100]])
     top = max(scaleds)
     lo = int(U64 / top) - 1
@@ -40,6 +45,8 @@ def make_sigs(rng, n, ksize):
         else:
             mh.add_many(hs)
         name = rng.choice(["", f"g{i}", f"genome {i} strain-{rng.randint(1, 99)}", f"s{i},with,commas", f'q"{i}"'])
+        if rng.random() < hard:
+            name = rng.choice([f" lead{i}", f"trail{i} ", f"tab{i}\t", f"  both{i}  ", f"two\nlines{i}"])
         sigs.append(SourmashSignature(mh, name=name, filename=f"file{i}.fa"))
     return sigs
 
@@ -74,7 +81,21 @@ def expected(mode, ani, ia, sigs):
     return M
 
 
-def run_cli(td, tag, files, ksize, mode, ani, ia, procs, dist):
+def plot_reload(td, tag, out, how, lab):
+    """`sourmash plot` on the saved matrix: returns (labels, matrix) as plot re-read and re-ordered them, or (None, stderr)"""
+    pc = os.path.join(td, f"{tag}.{how}.plot.csv")
+    cmd = [sys.executable, "-m", "sourmash", "plot", out, "--csv", pc, "--output-dir", os.path.join(td, f"{tag}.{how}.plots")]
+    cmd += ["--labels"] if how == "txt" else ["--labels-from", lab]
+    r = subprocess.run(cmd, stdout=subprocess.PIPE, stderr=subprocess.PIPE, text=True, timeout=600,
+                       env=dict(os.environ, TMPDIR=td, MPLBACKEND="Agg"))
+    if r.returncode != 0 or not os.path.exists(pc):
+        return None, (r.stderr or r.stdout)[-300:]
+    with open(pc, newline="") as f:
+        rows = list(csv.reader(f))
+    return rows[0], [[float(x) for x in row] for row in rows[1:]]
+
+
+def run_cli(td, tag, files, ksize, mode, ani, ia, procs, dist, n_from_file=0):
     out = os.path.join(td, f"{tag}.npy")
     cs = os.path.join(td, f"{tag}.csv")
     lab = os.path.join(td, f"{tag}.labels.csv")
@@ -89,32 +110,40 @@ def run_cli(td, tag, files, ksize, mode, ani, ia, procs, dist):
     if dist:
         cmd.append("--distance-matrix")
     # compare_parallel (-p N) leaves its memory-mapped arrays in the temp dir: keep them under <tmpdir>
+    if n_from_file:
+        # the last n_from_file files go through --from-file (the command appends them to the positional ones)
+        lst = os.path.join(td, f"{tag}.list.txt")
+        with open(lst, "w") as f:
+            f.write("\n".join(files[len(files) - n_from_file:]) + "\n")
+        files = files[:len(files) - n_from_file]
+        cmd += ["--from-file", lst]
     r = subprocess.run(cmd + files, stdout=subprocess.PIPE, stderr=subprocess.PIPE, text=True, timeout=600,
                        env=dict(os.environ, TMPDIR=td))
     if r.returncode != 0:
         return None, r.stderr[-400:]
     with open(out, "rb") as f:
         M = numpy.load(f)
-    labels = [x.rstrip("\n") for x in open(out + ".labels.txt")]
+    labels = open(out + ".labels.txt").read().split("\n")       # the file is "\n".join(labels)
     with open(cs, newline="") as f:
         rows = list(csv.reader(f))
     with open(lab, newline="") as f:
         lrows = list(csv.DictReader(f))
-    return (M, labels, rows, lrows), ""
+    return (M, labels, rows, lrows, out, lab), ""
 
 
 def main():
     td, seed, n_runs = sys.argv[1], int(sys.argv[2]), int(sys.argv[3])
+    labels_only = len(sys.argv) > 4 and sys.argv[4] == "labels"
     rng = random.Random(f"C16-cli-{seed}")
-    rep = {"runs": 0, "cells": 0, "violations": []}
+    rep = {"runs": 0, "cells": 0, "plot_reloads": 0, "violations": []}
 
     def bad(sig, what, **kw):
         rep["violations"].append(dict(signature=sig, what=what, **kw))
 
     for run in range(n_runs):
-        n = rng.choice([1, 2, 3, 5, 8, 12])
+        n = rng.choice([1, 2, 3, 5, 8, 12]) if not labels_only else rng.choice([2, 3, 4])
         ksize = rng.choice([21, 31])
-        sigs = make_sigs(rng, n, ksize)
+        sigs = make_sigs(rng, n, ksize, hard=0.7 if labels_only else (0.5 if rng.random() < 0.25 else 0.0))
         files = []
         for i, s in enumerate(sigs):
             p = os.path.join(td, f"r{run}_{i}.sig")
@@ -131,8 +160,23 @@ def main():
         rng.shuffle(order)
         results = []
         for tag, ordr in (("a", list(range(n))), ("b", order)):
-            res, err = run_cli(td, f"r{run}{tag}", [files[i] for i in ordr], ksize, mode, ani, ia, procs, dist)
+            nff = rng.choice([0, 0, 1, n // 2, n]) if n > 0 else 0
+            res, err = run_cli(td, f"r{run}{tag}", [files[i] for i in ordr], ksize, mode, ani, ia, procs, dist, n_from_file=nff)
             rep["runs"] += 1
+            if res is not None and nff:
+                # `--from-file` goes through load_pathlist_from_file(), which returns a *set*: the listed files arrive in hash
+                # order (differs from run to run), not in list order.  Matrix and labels stay consistent with each other, so
+                # this is not a C16 violation; the order actually used is read back from the --labels-to CSV.
+                actual = [files.index(r["signature_file"]) if r["signature_file"] in files else -1 for r in res[3]]
+                if sorted(actual) != sorted(ordr):
+                    bad("C16:cli:inputs-lost-or-duplicated", f"--from-file: inputs {ordr} but the command compared {actual} ({desc})")
+                    break
+                if actual[:n - nff] != ordr[:n - nff]:
+                    bad("C16:cli:positional-order", f"positional inputs {ordr[:n - nff]} were compared as {actual[:n - nff]} ({desc})")
+                    break
+                if actual != ordr:
+                    rep["from_file_reordered"] = rep.get("from_file_reordered", 0) + 1
+                ordr = actual
             loaded = [next(iter(load_file_as_signatures(files[i], ksize=ksize))) for i in ordr]
             try:
                 E = expected(mode, ani, ia, loaded)
@@ -145,7 +189,7 @@ def main():
             if res is None:
                 bad(f"C16:cli:failed:{mode}", f"sourmash compare exited non-zero although every pairwise value exists ({desc}): {err}")
                 break
-            M, labels, rows, lrows = res
+            M, labels, rows, lrows, out_npy, lab_csv = res
             if dist:
                 E = 1 - E
             want_labels = [str(s) for s in loaded]
@@ -153,8 +197,27 @@ def main():
                 bad(f"C16:cli:entry:{mode}", f"saved matrix differs from the pairwise values ({desc})",
                     got=M.tolist(), want=E.tolist())
             rep["cells"] += n * n
-            if labels != want_labels:
-                bad("C16:cli:labels-txt", f"labels.txt does not reload to the labels ({desc})", got=labels, want=want_labels)
+            hard_labels = any(x != x.strip() or "\n" in x for x in want_labels)
+            if labels != want_labels and not hard_labels:
+                bad("C16:cli:labels-txt", f"labels.txt does not hold the labels ({desc})", got=labels, want=want_labels)
+            # reload through `sourmash plot`, from labels.txt and from the --labels-to CSV
+            if tag == "a" and n >= 2 and len(set(want_labels)) == n and (labels_only or hard_labels or rng.random() < 0.35):
+                for how in ("txt", "csv"):
+                    rl, rm = plot_reload(td, f"r{run}{tag}", out_npy, how, lab_csv)
+                    rep["plot_reloads"] += 1
+                    okl = rl is not None and sorted(rl) == sorted(want_labels)
+                    if not okl:
+                        if how == "txt" and hard_labels:
+                            bad("C16:cli:labels-txt:whitespace-or-newline",
+                                f"`sourmash plot --labels` does not reload the labels `sourmash compare -o` saved: "
+                                f"saved {want_labels!r}, reloaded {rl!r}" + ("" if rl is not None else f" ({rm.strip()[-120:]})"),
+                                want=want_labels, got=rl)
+                        else:
+                            bad(f"C16:cli:plot-reload:{how}", f"plot does not reload the saved labels ({desc}): {want_labels!r} -> {rl!r} {'' if rl else rm}")
+                        continue
+                    idx = {x: i for i, x in enumerate(want_labels)}
+                    if any(rm[a][b] != E[idx[rl[a]]][idx[rl[b]]] for a in range(n) for b in range(n)):
+                        bad(f"C16:cli:plot-reload-matrix:{how}", f"the matrix plot reloads is not the saved one ({desc})")
             if rows[0] != want_labels or [[float(x) for x in r] for r in rows[1:]] != E.tolist():
                 bad("C16:cli:csv", f"--csv does not reload to the same values ({desc})")
             if [r["label"] for r in lrows] != want_labels or [r["sort_order"] for r in lrows] != [str(i + 1) for i in range(n)] \
